@@ -193,16 +193,13 @@ async fn scenario(a: &ShardArgs, idx: u64) {
     let mut ac = AssocCfg::quiet(OUT);
     ac.response_timeout_ms = *r.pick(&[100u64, 500]);
     let t_r = ac.response_timeout_ms;
-    ac.disable_unsol = if r.chance(3, 4) {
-        [true, r.bool(), r.bool()]
-    } else {
-        [false; 3]
+    // any non-empty set of classes (a single class included), or none
+    let mut class_set = |r: &mut crate::verif::rng::Rng| -> [bool; 3] {
+        let m = r.range(1, 7);
+        [m & 1 != 0, m & 2 != 0, m & 4 != 0]
     };
-    ac.enable_unsol = if r.chance(3, 4) {
-        [r.bool(), true, r.bool()]
-    } else {
-        [false; 3]
-    };
+    ac.disable_unsol = if r.chance(3, 4) { class_set(&mut r) } else { [false; 3] };
+    ac.enable_unsol = if r.chance(3, 4) { class_set(&mut r) } else { [false; 3] };
     ac.startup_integrity = if r.chance(4, 5) {
         [true, r.bool(), r.bool(), r.bool()]
     } else {
@@ -217,11 +214,7 @@ async fn scenario(a: &ShardArgs, idx: u64) {
         None
     };
     ac.integrity_on_overflow = r.bool();
-    ac.event_scan = if r.chance(1, 3) {
-        [true, r.bool(), false]
-    } else {
-        [false; 3]
-    };
+    ac.event_scan = if r.chance(1, 3) { class_set(&mut r) } else { [false; 3] };
     let has_poll = r.chance(1, 2);
     let mut sim = MasterSim::start(mc, &[ac.clone()]).await;
     if has_poll {
